@@ -924,6 +924,9 @@ func TestVerifC12(t *testing.T) {
 	// the lookup structure has one node group per range, tens of thousands in
 	// all.  The codec may refuse such a set, but what it accepts it must decode.
 	manySizes := []int{4000, 16319, 16320, 16321, 20000, 30000}
+	if r.Quick() {
+		manySizes = manySizes[:4]
+	}
 	r.Phase("many-ranges", len(manySizes), func(c *kit.Case) {
 		n := manySizes[c.Index]
 		type box struct{ a, b, lo, hi byte }
